@@ -451,6 +451,9 @@ func (s *storage) createTable(archetype *archetype, relations []relationID) *tab
 	if uint8(len(relations)) < archetype.numRelations {
 		panic("relation targets must be fully specified")
 	}
+	if len(relations) > 1 && !archetype.coversAllRelations(relations) {
+		panic("relation targets must be fully specified")
+	}
 	for _, rel := range relations {
 		idx := archetype.componentsMap[rel.component.id]
 		targets[idx] = rel.target
